@@ -367,6 +367,93 @@ func unknownTagPanics(c *Ctx) (bool, error) {
 	return *res, nil
 }
 
+// readerRetry looks at the reader goroutine in transport.handle:
+//
+//	if err.Timeout() || err.Temporary() { [select {case <-t.ctx.Done(): return … default:}] continue loop }
+//
+// and reports whether the retry branch first stops when the session context
+// is done.
+func readerRetry(c *Ctx) (bool, error) {
+	fd := c.FuncDecl("transport", "handle")
+	if fd == nil {
+		return false, fmt.Errorf("transport.handle not found")
+	}
+	var found *ast.IfStmt
+	n := 0
+	ast.Inspect(fd.Body, func(x ast.Node) bool {
+		ifs, ok := x.(*ast.IfStmt)
+		if !ok {
+			return true
+		}
+		be, ok := ifs.Cond.(*ast.BinaryExpr)
+		if !ok || be.Op != token.LOR {
+			return true
+		}
+		isCall := func(e ast.Expr, name string) bool {
+			call, ok := e.(*ast.CallExpr)
+			return ok && isSelector(call.Fun, "err", name)
+		}
+		if isCall(be.X, "Timeout") && isCall(be.Y, "Temporary") {
+			found = ifs
+			n++
+		}
+		return true
+	})
+	if n != 1 {
+		return false, fmt.Errorf("transport.handle: expected exactly one `if err.Timeout() || err.Temporary()` in the reader goroutine, found %d", n)
+	}
+	body := found.Body.List
+	if len(body) == 0 {
+		return false, fmt.Errorf("transport.handle: the read-timeout branch is empty (falls through to the fatal path?)")
+	}
+	br, ok := body[len(body)-1].(*ast.BranchStmt)
+	if !ok || br.Tok != token.CONTINUE {
+		return false, fmt.Errorf("transport.handle: the read-timeout branch does not end in `continue`")
+	}
+	if len(body) == 1 {
+		return false, nil
+	}
+	if len(body) != 2 {
+		return false, fmt.Errorf("transport.handle: the read-timeout branch has an unrecognised shape")
+	}
+	sel, ok := body[0].(*ast.SelectStmt)
+	if !ok {
+		return false, fmt.Errorf("transport.handle: the read-timeout branch does something other than select+continue")
+	}
+	ctxCase, def := false, false
+	for _, cl := range sel.Body.List {
+		cc := cl.(*ast.CommClause)
+		if cc.Comm == nil {
+			def = len(cc.Body) == 0
+			continue
+		}
+		es, ok := cc.Comm.(*ast.ExprStmt)
+		if !ok {
+			return false, fmt.Errorf("transport.handle: unrecognised case in the read-timeout select")
+		}
+		u, ok := es.X.(*ast.UnaryExpr)
+		if !ok || u.Op != token.ARROW {
+			return false, fmt.Errorf("transport.handle: unrecognised case in the read-timeout select")
+		}
+		returns := len(cc.Body) == 1
+		if returns {
+			_, returns = cc.Body[0].(*ast.ReturnStmt)
+		}
+		if !returns {
+			return false, fmt.Errorf("transport.handle: a case of the read-timeout select does not return")
+		}
+		if call, ok := u.X.(*ast.CallExpr); ok && isSelector(call.Fun, "t", "ctx", "Done") {
+			ctxCase = true
+		} else if !isSelector(u.X, "t", "closed") {
+			return false, fmt.Errorf("transport.handle: the read-timeout select receives from an unexpected channel")
+		}
+	}
+	if !def {
+		return false, fmt.Errorf("transport.handle: the read-timeout select has no empty default case (it would block)")
+	}
+	return ctxCase, nil
+}
+
 // sendSelects checks that transport.send consists of two select statements,
 // each with a `<-t.closed` and a `<-ctx.Done()` case, the first sending on
 // t.requests, the second receiving from req.err and req.response; and returns
@@ -598,6 +685,10 @@ func genReplyTypes(c *Ctx) (string, error) {
 	if err != nil {
 		return "", err
 	}
+	retryStops, err := readerRetry(c)
+	if err != nil {
+		return "", err
+	}
 	var b strings.Builder
 	b.WriteString("From Coq Require Import List NArith Bool.\nImport ListNotations.\nOpen Scope N_scope.\n\n")
 	b.WriteString("(* csession.go: (method name, request FcallType built, reply FcallType asserted) *)\n")
@@ -614,5 +705,6 @@ func genReplyTypes(c *Ctx) (string, error) {
 	fmt.Fprintf(&b, "(* transport.send, second select: has case <-t.closed, <-ctx.Done(), <-req.err, <-req.response *)\nDefinition send_second_cases : bool * bool * bool * bool := (%s).\n\n", bset(second, "closed", "ctx", "err", "response"))
 	fmt.Fprintf(&b, "(* newFcallRequest: buffer capacities of the response and err channels *)\nDefinition response_chan_cap : N := %d.\nDefinition err_chan_cap : N := %d.\n\n", rc, ec)
 	fmt.Fprintf(&b, "(* transport.handle: does the branch for a reply whose tag is not outstanding panic? *)\nDefinition unknown_tag_panics : bool := %v.\n", panics)
+	fmt.Fprintf(&b, "\n(* transport.handle, reader goroutine: does the retry-on-timeout branch stop once t.ctx is done? *)\nDefinition reader_retry_stops_when_done : bool := %v.\n", retryStops)
 	return b.String(), nil
 }
